@@ -289,6 +289,26 @@ func (c *Ctx) checkSanitizeBuffer(rule string) {
 			why = "the result is not taken (String()) before the buffer goes back to the pool"
 		}
 	}
+	// inside the release helper itself nothing touches the buffer after the pool's Put either
+	instrsOf(put, func(in ssa.Instruction) {
+		call, isCall := in.(*ssa.Call)
+		if !isCall {
+			return
+		}
+		name := ""
+		if g := staticCallee(call); g != nil {
+			name = g.Name()
+		} else if call.Call.IsInvoke() {
+			name = call.Call.Method.Name()
+		}
+		if name != "Put" {
+			return
+		}
+		if use := reachAvoiding(in, false, isBufUse, nil); use != nil {
+			ok = false
+			why = "the release helper resets / uses the buffer after handing it to the pool: the next owner (possibly on another goroutine) may already be writing into it - its output is truncated or mixed"
+		}
+	})
 	// the buffer goes back to the pool at most once per call (a buffer pooled twice is handed to two
 	// goroutines at the same time), deferred puts included
 	cnt := c.newPathCounter(func(i ssa.Instruction) bool {
